@@ -232,6 +232,29 @@ def gen_inputs(rng, kind, rows):
     return out
 
 
+LUNA_LONG = [["tian", "an", "men", "yi", "ge", "ren"], ["zhong", "guo", "tian", "an", "men"], ["da", "jia", "hao", "peng", "you"],
+             ["wo", "men", "xi", "huan", "bei", "jing"], ["ming", "tian", "zai", "jian", "peng", "you"],
+             ["ta", "men", "hen", "hao", "ma"], ["ni", "hao", "ma", "wo", "hen", "hao"], ["wo", "men", "dou", "shi", "hao", "ren", "ma"]]
+
+
+def luna_long_histories(rng, n):
+    """directed: phrases of five and more syllables on the stock schema (completion enabled).  (1) assemble the phrase from
+    partial selections (not the first candidates, so that sentence composition does not rebuild it), commit, type the whole
+    input again: it must be offered as one candidate; (2) type only its first four syllables and commit the completion
+    candidate: the count of the phrase's own record goes up, nothing else changes; (3) type the whole input again."""
+    out = []
+    for syl in rng.sample(LUNA_LONG, min(n, len(LUNA_LONG))):
+        x = "".join(syl)
+        ops = ["type " + x]
+        for _ in range(len(syl)):
+            ops.append("select_part %d" % rng.choice([1, 1, 2]))
+        ops += ["select_whole %d" % rng.choice([0, 1]), "commit", "clear", "type " + x, "clear",
+                "type " + "".join(syl[:4]), "select_completion 0", "commit", "clear", "type " + x, "select_whole 0", "commit", "clear",
+                "restart_session", "type " + x, "clear", "type " + "".join(syl[:4]), "select_completion 0", "commit", "clear"]
+        out.append(ops)
+    return out
+
+
 def gen_history(rng, kind, n_rounds, rows):
     """one learning history; every op is relative to the lists the real run shows (select the k-th whole/partial/user one)"""
     inputs = gen_inputs(rng, kind, rows)
@@ -756,7 +779,7 @@ def run(c):
             rows = gen_script_dict(c.rng) if kindname == "script" else gen_table_dict(c.rng)
             hs = [gen_history(c.rng, kindname, n_rounds, rows) for _ in range(n_hist)]
             batches.append((kindname, schema, style, predict, rows, hs, "gen%d" % d))
-    luna_hs = [gen_history(c.rng, "luna", luna_rounds, []) for _ in range(luna_hist)]
+    luna_hs = luna_long_histories(c.rng, 4 if quick else 8) + [gen_history(c.rng, "luna", luna_rounds, []) for _ in range(luna_hist)]
     for k in range(0, len(luna_hs), 8):
         batches.append(("luna", "luna_pinyin", "script", "none", [], luna_hs[k:k + 8], "luna%d" % k))
     ws_luna = None
